@@ -1,10 +1,167 @@
 package main
 
 import (
+	"encoding/json"
+	"fmt"
+	"os"
+	"os/exec"
+	"path/filepath"
 	"sort"
+	"strconv"
+	"strings"
 
 	"github.com/modernizing/coca/pkg/application/git"
 )
+
+// tableRows parses the tables `coca git` prints (tablewriter: | a | b | c |) into their data rows, one list per table
+func tableRows(out string) [][][]string {
+	var tables [][][]string
+	var cur [][]string
+	inTable := false
+	for _, ln := range strings.Split(out, "\n") {
+		t := strings.TrimSpace(ln)
+		if strings.HasPrefix(t, "+-") {
+			inTable = true
+			continue
+		}
+		if !strings.HasPrefix(t, "|") {
+			if inTable && cur != nil {
+				tables = append(tables, cur)
+				cur = nil
+			}
+			inTable = false
+			continue
+		}
+		cells := strings.Split(strings.Trim(t, "|"), "|")
+		rule := true
+		for i := range cells {
+			cells[i] = strings.TrimSpace(cells[i])
+			if strings.Trim(cells[i], "-") != "" {
+				rule = false
+			}
+		}
+		if rule {
+			continue // the line under the header
+		}
+		cur = append(cur, cells)
+	}
+	if cur != nil {
+		tables = append(tables, cur)
+	}
+	return tables
+}
+
+func init() {
+	// the same five summaries, observed through the command: the history is materialised as a real repository (one
+	// commit per entry: files created with `added` lines, later entries append lines), `coca git -b`, `-t` and `-o`
+	// are run in it WITHOUT -f, and their tables are the team / top-author / basic observations; code age and the
+	// change log come from the library over the commits the command itself wrote to commits.json
+	register("C15.cli", func(in Sx) Sx {
+		bin := os.Getenv("COCA_BIN")
+		if bin == "" {
+			return L(A("!NOCLI"))
+		}
+		dir, err := os.MkdirTemp(os.Getenv("VERIF_SCRATCH"), "verif-c15-")
+		if err != nil {
+			panic(err)
+		}
+		defer os.RemoveAll(dir)
+		base := []string{"GIT_CONFIG_NOSYSTEM=1", "HOME=/nonexistent"}
+		mustGit(dir, base, "init", "-q", "-b", "main", ".")
+		mustGit(dir, base, "config", "user.email", "a@example.invalid")
+		mustGit(dir, base, "config", "user.name", "nobody")
+		mustGit(dir, base, "config", "commit.gpgsign", "false")
+		serial := 0
+		for _, c := range in.Items() {
+			for _, ch := range c.Nth(5).Items() {
+				p := filepath.Join(dir, ch.Nth(5).Str())
+				os.MkdirAll(filepath.Dir(p), 0o755)
+				f, _ := os.OpenFile(p, os.O_APPEND|os.O_CREATE|os.O_WRONLY, 0o644)
+				for i := 0; i < ch.Nth(0).Int(); i++ {
+					serial++
+					fmt.Fprintf(f, "line %d\n", serial)
+				}
+				f.Close()
+			}
+			mustGit(dir, base, "add", "-A", ".")
+			mustGit(dir, commitEnv(c.Nth(1).Str(), c.Nth(2).Str()), "commit", "-q", "-m", c.Nth(3).Str())
+		}
+		run := func(flag string) (string, bool) {
+			cmd := exec.Command(bin, "git", flag)
+			cmd.Dir = dir
+			cmd.Env = append(os.Environ(), append(base, "TMPDIR="+dir)...)
+			out, err := cmd.CombinedOutput()
+			return string(out), err == nil
+		}
+		num := func(s string) Sx { n, _ := strconv.Atoi(s); return N(n) }
+		team, top := []Sx{}, []Sx{}
+		basic := L(N(0), N(0), N(0), N(0))
+		if out, ok := run("-t"); !ok {
+			return L(A("!CLI-ERROR"), A(panicClass(out)))
+		} else {
+			for _, tb := range tableRows(out) {
+				for i, r := range tb {
+					if i == 0 || len(r) != 3 {
+						continue
+					}
+					team = append(team, L(A(r[0]), num(r[2]), num(r[1])))
+				}
+			}
+		}
+		if out, ok := run("-o"); !ok {
+			return L(A("!CLI-ERROR"), A(panicClass(out)))
+		} else {
+			for _, tb := range tableRows(out) {
+				for i, r := range tb {
+					if i == 0 || len(r) != 3 {
+						continue
+					}
+					top = append(top, L(A(r[0]), num(r[1]), num(r[2])))
+				}
+			}
+		}
+		if out, ok := run("-b"); ok {
+			vals := map[string]string{}
+			for _, tb := range tableRows(out) {
+				for _, r := range tb {
+					if len(r) == 2 {
+						vals[r[0]] = r[1]
+					}
+				}
+			}
+			basic = L(num(vals["Commits"]), num(vals["Entities"]), num(vals["Changes"]), num(vals["Authors"]))
+		}
+		var cs []git.CommitMessage
+		data, err := os.ReadFile(filepath.Join(dir, "coca_reporter", "commits.json"))
+		if err != nil || json.Unmarshal(data, &cs) != nil {
+			return L(A("!CLI-NO-OUTPUT"), A("commits.json"))
+		}
+		age := []Sx{}
+		for _, r := range git.CalculateCodeAge(cs) {
+			age = append(age, L(A(r.EntityName), A(r.Age.Format("2006-01-02"))))
+		}
+		cm := git.BuildChangeMap(cs)
+		kws := []string{}
+		for k := range cm {
+			kws = append(kws, k)
+		}
+		sort.Strings(kws)
+		cl := []Sx{}
+		for _, k := range kws {
+			files := []string{}
+			for f := range cm[k] {
+				files = append(files, f)
+			}
+			sort.Strings(files)
+			fs := []Sx{}
+			for _, f := range files {
+				fs = append(fs, L(A(f), N(cm[k][f])))
+			}
+			cl = append(cl, L(A(k), L(fs...)))
+		}
+		return L(L(team...), L(age...), L(top...), basic, L(cl...))
+	})
+}
 
 func commitsOf(in Sx) []git.CommitMessage {
 	var out []git.CommitMessage
